@@ -248,6 +248,7 @@ def relevant(rec, case):
 SPEC = {
     'lean': ['C04', 'Tables'],
     'cases': cases,
+    'big': True,
     'relevant': relevant,
     'stream': 'C04 call-shape matrix',
     'rule': 'matrix: every built-in and built-in module function × arity 0–4 × argument kinds (14 kinds incl. bare literals and mixed-kind lists) '
